@@ -645,7 +645,9 @@ static void env_setup(void)
     sim_alloc_set_allow_list(allow);
     /* (pictures and sound are written through typed pointers: like malloc, 16-aligned for them) */
     umem = umem_sim_mgr_alloc((types[type].flags & F_TYPED) ? 0 : 3);
-    udict_mgr = udict_inline_mgr_alloc(depth[pool], umem, -1, -1);
+    /* half of the runs: a dictionary storage that every attribute makes grow (growth can then fail) */
+    bool small_dicts = ((uint64_t)plan->cfg[CFG_POOL] % 10) >= 5;
+    udict_mgr = udict_inline_mgr_alloc(depth[pool], umem, small_dicts ? 1 : -1, small_dicts ? 1 : -1);
     uref_mgr = uref_std_mgr_alloc(depth[pool], udict_mgr, 0);
     ubuf_mgr = ubuf_block_mem_mgr_alloc(depth[pool], depth[pool], umem, 0, 0, 0, 0);
     upump_mgr = upump_sim_mgr_alloc(depth[pool], depth[pool]);
@@ -1829,7 +1831,7 @@ static void gen(const char *pr, struct sim_rng *r, struct sim_plan *p)
 {
     p->cfg[CFG_PROP] = atoi(pr + 1);
     p->cfg[CFG_TYPE] = sim_rng_below(r, NTYPES);
-    p->cfg[CFG_POOL] = sim_rng_below(r, 5);
+    p->cfg[CFG_POOL] = sim_rng_below(r, 10);
     p->cfg[CFG_FAULTS] = sim_rng_chance(r, 1, 3);
     p->cfg[CFG_PROVIDE] = sim_rng_chance(r, 9, 10) ? 31 : sim_rng_below(r, 32);
     p->cfg[CFG_ALLOCDEF] = sim_rng_below(r, 128);
